@@ -25,6 +25,9 @@ pub const ASSUMPTIONS: &[&str] = &[
     "messages are compared by their (unique) texts in order always, and with line numbers mapped to the including file's numbering when they have the form '<kind>: <text> in line: <n>'; error texts are not compared (both sides must fail)",
     "under faults: Err is acceptable, a panic is counted but not judged here, Ok implies equality with the fault-free result; short reads and read caps must not change the result; a missing file that the fault-free build opens must fail the build with an error naming the include as written",
     "tree and flat side run under the same simulated hash seed (hash-order dependence is C17's matter)",
+    "an include guard `.ifdef X` / `.exit` / `.endif` at the top level of a file is pasted as `.ifndef X` / rest / `.endif`; any other `.exit` inside a conditional makes a scenario not judged",
+    "files are regular files, symbolic links to regular files, or (empty includes) character devices that read as nothing; sizes reported for regular files are true",
+    "files that appear in an .includepath directory while the build is under way (put there when the parser is about to take a seeded line) are found like files that were there from the start, provided the trace shows no stat or open of one of their names before that moment",
 ];
 
 #[derive(Serialize, Deserialize, Clone, Debug)]
